@@ -30,6 +30,10 @@ type C07Scenario struct {
 	Second *refsmtpd.Config `json:"second,omitempty"`
 	Label  string           `json:"label"`
 	Sched  uint64           `json:"sched"`
+	// PlainDial: implicit TLS is configured (WithSSL), but the caller's dial function hands back
+	// a plain connection (a dialer that was meant to speak TLS and does not). The connection is
+	// then unencrypted whatever the Client believes: clauses (iii) and (iv) apply to it.
+	PlainDial bool `json:"plainDial,omitempty"`
 }
 
 type c07 struct{ cache map[string][]C07Scenario }
@@ -128,7 +132,19 @@ func (p *c07) build(seed uint64, tier string) []C07Scenario {
 							if pol == "implicit" {
 								sc.Server.ImplicitTLS = true
 							}
+							if strings.HasPrefix(b.label, "cert-") && idx%2 == 0 {
+								// a Client for the very name the wrong certificate is valid for
+								sc.Client.Sibling = "other.sim.example"
+								sc.Label += "|sibling"
+							}
 							out = append(out, sc)
+							if pol == "implicit" && b.label == "tls-ok" && (auth == "AUTODISCOVER" || auth == "PLAIN" || auth == "LOGIN" || strings.HasPrefix(auth, "CUSTOM")) {
+								pd := sc
+								pd.PlainDial = true
+								pd.Server.ImplicitTLS = false
+								pd.Label += "|plain-dialer"
+								out = append(out, pd)
+							}
 						}
 					}
 				}
@@ -215,7 +231,7 @@ func (p *c07) Exec(t *testing.T, scAny any) Outcome {
 	send := &SendScenario{Client: sc.Client, Server: sc.Server, Op: "dialandsend", Sched: sc.Sched,
 		Batches: [][]MsgSpec{{SimpleMsg("c07")}}}
 	hook := func(e *NetEnv) {
-		if sc.Client.TLSPolicy == "implicit" {
+		if sc.Client.TLSPolicy == "implicit" && !sc.PlainDial {
 			e.ImplicitTLS = true
 		}
 		if sc.Second != nil {
@@ -267,7 +283,9 @@ func (p *c07) judgeConn(out *Outcome, sc *C07Scenario, pipe *sim.Pipe, srv *refs
 	// where does TLS start in the client's byte stream?
 	clearEnd := len(c2s)
 	tlsStarted := false
-	if pol == "implicit" {
+	if pol == "implicit" && sc.PlainDial {
+		pol = "implicit-plaindial" // everything the client writes is clear
+	} else if pol == "implicit" {
 		clearEnd = 0
 		tlsStarted = true
 	} else {
